@@ -3,8 +3,6 @@ package main
 // emitAll prints the facts tables (Lean definitions in namespace ShootVerif.Facts). Each area keeps its
 // tables in its own file of this directory and adds one call here.
 func emitAll(repo string) {
-	emitGenState(repo) // genstate.go: genStateFields, genStateWrites (C08)
-	emitMapSites(repo) // mapsites.go: mapRangeSites (C07)
 	// driver area (C17, C18): srcwalk.go, fs.go (fsCalls), fatal.go (fatalSites, panicSites)
 	t := loadTree(repo)
 	emitFs(t)
@@ -12,4 +10,6 @@ func emitAll(repo string) {
 	// determinism area (C08, C07): genstate.go, mapsites.go
 	emitGenState(repo)
 	emitMapSites(repo)
+	// C01: tmpl.go (tmplSyms, tmplHeaders)
+	emitTmpl(repo)
 }
